@@ -551,6 +551,12 @@ class EditGen:
                     if len(fd["params"]) > 1:
                         fd["params"][1][1] = rnd.randint(1, 3)
                     op = {"op": "set_space_formula", "space": path, "formula": fd}
+        elif kind == "child_formula_new":
+            # a plain child space inside a parametrised tree becomes parametrised itself
+            if sp.formula is None and any(a.formula is not None for a in R._ancestors(sp)) \
+                    and not any(p == "n" for a in R._ancestors(sp) if a.formula for p, _ in a.formula.params):
+                op = {"op": "set_space_formula", "space": path,
+                      "formula": {"params": [["n", None]], "lam": rnd.random() < 0.5}}
         elif kind == "allow_none":
             if rnd.random() < 0.3:
                 c = list(sp.cells)
